@@ -55,6 +55,20 @@ fn main() {
         }
         return;
     }
+    if args.len() >= 2 && args[1] == "ALIASCYCLE" {
+        // a dependency cycle that runs through aliases
+        use adblock::resources::{MimeType, ResourceType};
+        let mut a = net::mk_resource("a.js", &["aa"], ResourceType::Mime(MimeType::ApplicationJavascript), "function a(){}", 0);
+        a.dependencies = vec!["bb".to_string()];
+        let mut b = net::mk_resource("b.fn", &["bb"], ResourceType::Mime(MimeType::FnJavascript), "function b(){}", 0);
+        b.dependencies = vec!["aa".to_string()];
+        let mut e = adblock::Engine::from_rules_parametrised(&["x.com##+js(a)".to_string()], Default::default(), true, true);
+        e.use_resources(vec![a, b]);
+        println!("querying...");
+        let c = e.url_cosmetic_resources("https://x.com/");
+        println!("script: {:?}", c.injected_script);
+        return;
+    }
     if args.len() >= 4 && args[1] == "COSPROBE" {
         // adbharness COSPROBE <url> <rule>... : per-site cosmetic resources of a small rule set
         let e = adblock::Engine::from_rules_parametrised(&args[3..], Default::default(), true, true);
